@@ -11,7 +11,7 @@ from . import common
 
 ID = 'C05'
 LEVEL = 'exploration'
-N = {'quick': 24000, 'thorough': 600000}
+N = {'quick': 40000, 'thorough': 600000}
 RULE = ('generated strict-ranking elections with a planted solid coalition sized just above or below k quotas, plus background ballots; all rules x '
         'accepted options (mpls without write-ins); every candidate subset with non-zero solid support (the others are vacuous) is checked; non-trivial = some subset S (2 <= |S| < candidates) is '
         'solidly supported by more than k >= 1 quotas (plus allowance) and by at most (k+1) quotas plus one ballot line; distinct = distinct case JSON')
@@ -25,7 +25,10 @@ GUARDS = {'all': {'coalition-near-boundary': 0.1}}
 @st.composite
 def cases(draw, tier):
     d = D(draw)
-    case = draw(gen.election_cases(tier=tier, undeclared_for_mpls=False, equal_for_meek=False, min_cand=3))
+    # the batch rules exclude several candidates on an arithmetic argument about pending surpluses: the likeliest way for a
+    # coalition to lose a seat it is entitled to, so they get three times the weight
+    rules = model.ALL_RULES + ('wigm-prf-batch', 'cfer-batch', 'mpls') * 2
+    case = draw(gen.election_cases(tier=tier, rules=rules, undeclared_for_mpls=False, equal_for_meek=False, min_cand=3))
     nc = case['ncand']
     el = model.eligible(case)
     # Meek/Warren: the arithmetic's default omega. A coarse explicit omega (omega=0 stops iterating at a total surplus of one
